@@ -7,7 +7,7 @@ import TrustVerif.Lemmas.C11Frame
 `OutWf P dec`: every result of a decoder satisfies `P`.  Proved for every element codec with the same
 automated pattern as `LenExact`, lifted to sections and to the whole container.  The decoder does
 not enforce one clause of `Module.wf`: that the first type entry starts right behind the offset
-table (`Module.offsetsCanonical`).
+table (`Module.firstOffsetsOk`); every other offset is forced (`decTypeEntriesAt_offsets`).
 -/
 set_option linter.unusedSimpArgs false
 
@@ -379,11 +379,101 @@ theorem decTypeTable_out (minor : UInt16) (payload : Bytes) (t : TypeTable)
         obtain ⟨hl, hall⟩ := readN_out outWf_typeEntry _ _ _ _ he
         exact ⟨by simp only [hl]; exact lenOk_toNat32 count, hall, fun _ => rfl⟩
 
+/-- the canonical-offsets clause of `TypeTable.wf`, for any section -/
+def sectionOffsetsCanonical (minor : UInt16) : SectionData → Bool
+  | .typeTable t =>
+    decide (t.offsets = if minor ≥ 1 then computeTypeOffsets (t.entries.map encTypeEntry) else [])
+  | _ => true
+
+/-- the offsets of a successfully decoded offset table are consecutive: each one is the previous
+one plus the length of the (canonically re-encoded) entry decoded there -/
+theorem decTypeEntriesAt_offsets (payload : Bytes) (base : Nat) (hp : payload.length < 4294967296) :
+    ∀ (offs : List UInt32) (prev : Option UInt32) (es : List TypeEntry),
+    decTypeEntriesAt payload base prev offs = .ok es →
+    ∀ o rest, offs = o :: rest → offs = computeTypeOffsetsFrom o (es.map encTypeEntry) := by
+  intro offs
+  induction offs with
+  | nil => intro prev es _ o rest h; cases h
+  | cons o1 rest1 ih =>
+    intro prev es h o rest hoffs
+    simp only [List.cons.injEq] at hoffs
+    obtain ⟨ho, hr⟩ := hoffs
+    subst ho hr
+    simp only [decTypeEntriesAt] at h
+    split at h
+    · cases h
+    · next entry hte =>
+      split at h
+      · cases h
+      · next es' hrest =>
+        simp only [Except.ok.injEq] at h
+        subst h
+        obtain ⟨h1, h2, h3, h4⟩ := typeEntryAt_len hte
+        simp only [List.map_cons, computeTypeOffsetsFrom]
+        cases rest1 with
+        | nil =>
+          simp [decTypeEntriesAt] at hrest
+          subst hrest
+          simp [computeTypeOffsetsFrom]
+        | cons o2 rest2 =>
+          have hnext : o2 = nextTypeOffset o1 (encTypeEntry entry).length := by
+            apply UInt32.toNat_inj.mp
+            simp only [nextOffset] at h2 h3 h4
+            rw [nextTypeOffset_toNat _ _ (by omega)]
+            omega
+          rw [← hnext]
+          have := ih (some o1) es' hrest o2 rest2 rfl
+          rw [← this]
+
+theorem decTypeTable_canonical_of_first (minor : UInt16) (payload : Bytes) (t : TypeTable)
+    (hp : payload.length < 4294967296) (h : decTypeTable minor payload = .ok t)
+    (hf : sectionFirstOffsetOk minor (.typeTable t) = true) :
+    sectionOffsetsCanonical minor (.typeTable t) = true := by
+  simp only [sectionOffsetsCanonical, decide_eq_true_eq]
+  unfold decTypeTable at h
+  split at h
+  · cases h
+  · next count r hc =>
+    by_cases hm : minor ≥ 1
+    · simp only [hm, if_true] at h ⊢
+      split at h
+      · cases h
+      · next offsets r' ho =>
+        split at h
+        · cases h
+        · next entries he =>
+          simp only [Except.ok.injEq] at h
+          subst h
+          obtain ⟨hel, hm2⟩ := decTypeEntriesAt_len _ _ _ _ _ he
+          cases offsets with
+          | nil =>
+            have : entries = [] := List.length_eq_zero_iff.mp (by simpa using hel)
+            subst this
+            simp [computeTypeOffsets, computeTypeOffsetsFrom]
+          | cons o rest =>
+            have hcons := decTypeEntriesAt_offsets payload _ hp _ _ _ he o rest rfl
+            simp only [sectionFirstOffsetOk, hm, if_true, beq_iff_eq] at hf
+            simp only at hm2
+            have h4n : 4 + 4 * entries.length < 4294967296 := by omega
+            have ho4 : o = 4 + UInt32.ofNat (entries.map encTypeEntry).length * 4 := by
+              apply UInt32.toNat_inj.mp
+              rw [hf]
+              simp [UInt32.toNat_add, UInt32.toNat_mul, UInt32.toNat_ofNat']
+              omega
+            rw [hcons, computeTypeOffsets, ho4]
+    · simp only [hm, if_false] at h ⊢
+      split at h
+      · cases h
+      · simp only [Except.ok.injEq] at h
+        subst h
+        rfl
+
+
 /-- **What `decode_section_data` returns is well-formed** (up to the canonical-offsets clause of the
 type table, which the decoder does not enforce). -/
 theorem decodeSectionData_out (minor id : UInt16) (payload : Bytes) (d : SectionData)
-    (h : decodeSectionData minor id payload = .ok d) :
-    idMatches id d = true ∧ (sectionOffsetsCanonical minor d = true → d.wf minor = true) := by
+    (hp : payload.length < 4294967296) (h : decodeSectionData minor id payload = .ok d) :
+    idMatches id d = true ∧ (sectionFirstOffsetOk minor d = true → d.wf minor = true) := by
   unfold decodeSectionData at h
   by_cases h0 : id = idStringTable
   · rw [if_pos h0] at h
@@ -409,7 +499,8 @@ theorem decodeSectionData_out (minor id : UInt16) (payload : Bytes) (d : Section
     subst hd
     obtain ⟨w1, w2, w3⟩ := decTypeTable_out minor payload x hx
     refine ⟨by simp [idMatches, h2], ?_⟩
-    intro hc
+    intro hf
+    have hc := decTypeTable_canonical_of_first minor payload x hp hx hf
     simp only [sectionOffsetsCanonical, decide_eq_true_eq] at hc
     simp only [SectionData.wf, TypeTable.wf, Bool.and_eq_true, List.all_eq_true, decide_eq_true_eq]
     exact ⟨⟨w1, w2⟩, hc⟩
@@ -522,10 +613,10 @@ theorem decodeSectionData_out (minor id : UInt16) (payload : Bytes) (d : Section
   have e12 : (12 : UInt16).toNat = 12 := rfl
   omega
 
-theorem decodeSections_out (minor : UInt16) (bytes : Bytes) :
+theorem decodeSections_out (minor : UInt16) (bytes : Bytes) (hb : bytes.length < 4294967296) :
     ∀ (es : List SectionEntry) (secs : List Section), decodeSections minor bytes es = .ok secs →
     secs.length = es.length ∧
-      ∀ s ∈ secs, idMatches s.id s.data = true ∧ (sectionOffsetsCanonical minor s.data = true → s.data.wf minor = true) := by
+      ∀ s ∈ secs, idMatches s.id s.data = true ∧ (sectionFirstOffsetOk minor s.data = true → s.data.wf minor = true) := by
   intro es
   induction es with
   | nil => intro secs h; simp [decodeSections] at h; subst h; simp
@@ -545,7 +636,10 @@ theorem decodeSections_out (minor : UInt16) (bytes : Bytes) :
         intro s hs
         simp only [List.mem_cons] at hs
         cases hs with
-        | inl h => subst h; exact decodeSectionData_out minor e.id _ data hd
+        | inl h =>
+          subst h
+          refine decodeSectionData_out minor e.id _ data ?_ hd
+          simp only [sliceOf, List.length_take, List.length_drop]; omega
         | inr h => exact hall s h
 
 theorem sum_align4_le (xs : List Nat) : (xs.map align4).sum ≤ xs.sum + 3 * xs.length := by
@@ -563,11 +657,11 @@ theorem checkHeader_major {crc : Bytes → UInt32} {bytes : Bytes} {h : Header}
   all_goals first | (cases hc; done) | (rename_i hm; simpa using hm)
 
 /-- **What `decode` returns is well-formed**, provided its type tables are laid out canonically (no
-stray bytes in front of the first entry — the one thing the decoder accepts and `encode` never
+stray bytes in front of the first entry: `Module.firstOffsetsOk` — the one thing the decoder accepts and `encode` never
 writes) and the container is not within 1 MiB of 4 GiB (so that the re-encoded layout fits `u32`
 offsets even after padding). -/
 theorem decode_wf (crc : Bytes → UInt32) (bytes : Bytes) (m : Module) (h : decode crc bytes = .ok m)
-    (hcan : m.offsetsCanonical = true) (hsz : bytes.length + 1048576 < 4294967296) : m.wf = true := by
+    (hcan : m.firstOffsetsOk = true) (hsz : bytes.length + 1048576 < 4294967296) : m.wf = true := by
   have hsize := decode_size crc bytes m h
   unfold decode at h
   split at h
@@ -588,11 +682,11 @@ theorem decode_wf (crc : Bytes → UInt32) (bytes : Bytes) (m : Module) (h : dec
           · next sections hsecs =>
             simp only [Except.ok.injEq] at h
             subst h
-            obtain ⟨hl, hall⟩ := decodeSections_out hdr.minor bytes entries sections hsecs
+            obtain ⟨hl, hall⟩ := decodeSections_out hdr.minor bytes (by omega) entries sections hsecs
             have hn := (readN_out (outWf_true decSectionEntry) _ _ _ _ hread).1
             have hcount := hdr.sectionCount.toNat_lt
             have hmaj := checkHeader_major hck
-            simp only [Module.offsetsCanonical, List.all_eq_true] at hcan
+            simp only [Module.firstOffsetsOk, List.all_eq_true] at hcan
             simp only [Module.wf, Bool.and_eq_true, List.all_eq_true, beq_iff_eq, decide_eq_true_eq,
               Section.wf]
             refine ⟨⟨⟨hmaj, by rw [hl, hn]; simpa using hcount⟩, ?_⟩, ?_⟩
@@ -610,7 +704,7 @@ theorem decode_wf (crc : Bytes → UInt32) (bytes : Bytes) (m : Module) (h : dec
 /-- **Round trip from arbitrary bytes.**  Whatever bytes decode to (canonical type tables, container
 below 4 GiB − 1 MiB), encoding and decoding again gives the same module. -/
 theorem decode_encode_decode (crc : Bytes → UInt32) (bytes : Bytes) (m : Module)
-    (h : decode crc bytes = .ok m) (hcan : m.offsetsCanonical = true)
+    (h : decode crc bytes = .ok m) (hcan : m.firstOffsetsOk = true)
     (hsz : bytes.length + 1048576 < 4294967296) :
     ∃ b', encode crc m = .ok b' ∧ decode crc b' = .ok m :=
   decode_encode crc m (decode_wf crc bytes m h hcan hsz)
